@@ -1,5 +1,7 @@
 (* C05 — A glob denotes exactly the matching non-hidden files under the spokfile dir.
-   Statements + `exact` + Print Assumptions only.  Fragment: pattern segments made of literal bytes and '*', or "**". *)
+   Statements + `exact` + Print Assumptions only.  Patterns: alternation {a,b} (nested too), then segments separated by '/', each
+   made of literal bytes, '*', '?' and character classes [..], [!..], [^..] with ranges, or the segment "**".  Outside: backslash
+   escapes (a segment containing one matches nothing in the model) and empty segments. *)
 From Spok Require Import Base Glob GlobProofs.
 
 (* For every well-formed directory tree (no name listed twice in a directory) and every non-empty pattern of the
@@ -10,6 +12,18 @@ Theorem C05_exact : forall root pat x, wf root -> pat <> [] ->
   (In x (expand root pat) <-> tmatch pat root x = true /\ hidden x = false).
 Proof. exact (fun root pat x W NE => expand_spec root W pat x NE). Qed.
 Print Assumptions C05_exact.
+
+(* for a pattern as written in the spokfile (alternation included): an entry is reported iff some alternative of the pattern
+   matches its relative path and the path does not begin with a dot *)
+Theorem C05_pattern : forall root p x, wf root ->
+  (In x (expand_pat root p) <->
+   exists q, In q (expand_alts (S (length p)) p) /\ tmatch (parse_pattern q) root x = true /\ hidden x = false).
+Proof. exact expand_pat_spec. Qed.
+Print Assumptions C05_pattern.
+
+Theorem C05_pattern_same_as_full_walk : forall root p, wf root -> forall x, In x (expand_pat root p) <-> In x (glob_spec_pat root p).
+Proof. exact expand_pat_exact. Qed.
+Print Assumptions C05_pattern_same_as_full_walk.
 
 (* the same, against the executable specification "filter a full walk of the tree with the reference matcher" *)
 Theorem C05_same_as_full_walk : forall root pat, wf root -> pat <> [] ->
@@ -34,6 +48,9 @@ Definition ex_tree : gnode := GDir [ ([46; 101], GFile); ([97; 46; 106; 115], GF
 Example C05_nonvacuous :
   expand ex_tree [SPat [42; 46; 106; 115]] = [[[97; 46; 106; 115]]; [[122; 46; 106; 115]]]
   /\ expand ex_tree [SDouble; SPat [42; 46; 106; 115]] = [[[97; 46; 106; 115]]; [[122; 46; 106; 115]]; [[115; 114; 99]; [98; 46; 106; 115]]]
-  /\ expand_with old_spok_cb ex_tree [SPat [42]] = [].
+  /\ expand_with old_spok_cb ex_tree [SPat [42]] = []
+  (* "{src,lib}/[a-c].{js,txt}" and "?.j[!x]" *)
+  /\ expand_pat ex_tree [123;115;114;99;44;108;105;98;125;47;91;97;45;99;93;46;123;106;115;44;116;120;116;125] = [[[115; 114; 99]; [98; 46; 106; 115]]]
+  /\ expand_pat ex_tree [63;46;106;91;33;120;93] = [[[97; 46; 106; 115]]; [[122; 46; 106; 115]]].
 Proof. repeat split; vm_compute; reflexivity. Qed.
 Print Assumptions C05_nonvacuous.
